@@ -25,6 +25,8 @@ type Node struct {
 	Host int    `json:"host"` // index into hosts
 	Port int    `json:"port"`
 	Err  bool   `json:"err"`
+	// Conn: the node's channel considers itself connected (with Err: a node that has recovered)
+	Conn bool `json:"conn,omitempty"`
 }
 
 type Case struct {
@@ -91,6 +93,7 @@ func gen(t *rapid.T) Case {
 			Host: rapid.IntRange(0, len(hosts)-1).Draw(t, "host"),
 			Port: port,
 			Err:  rapid.Bool().Draw(t, "err"),
+			Conn: rapid.Bool().Draw(t, "conn"),
 		}
 	})
 	return Case{
@@ -107,8 +110,13 @@ func run(c Case) vt.Verdict {
 		if n.Err {
 			err = errors.New("some error")
 		}
-		nodes[i] = gorums.VerifBareNode(n.ID, fmt.Sprintf("%s:%d", hosts[n.Host%len(hosts)], n.Port), err)
+		nodes[i] = gorums.VerifBareNodeState(n.ID, fmt.Sprintf("%s:%d", hosts[n.Host%len(hosts)], n.Port), err, n.Conn)
 		back[nodes[i]] = n
+		// the LastNodeError key is documented as sorting nodes by their LastErr() status: the accessor
+		// must report exactly the status the key uses
+		if got := nodes[i].LastErr() != nil; got != n.Err {
+			return vt.Fail("C19/key/LastNodeError/accessor", "node %+v: LastErr() != nil is %v, but the node's last error status (which the LastNodeError key sorts by) is %v", n, got, n.Err)
+		}
 	}
 
 	// (1) every key function is a strict weak ordering that agrees with its model
